@@ -1,8 +1,287 @@
-use crate::gen_common::Stats;
+//! Stream-level properties: C08, C12, C13, C14, C15, C17, C18, C20.
+use crate::gen_arch::*;
+use crate::gen_common::*;
+use crate::ops::guard_chk;
+use crate::ops2::*;
+use crate::proto::*;
 use crate::rng::Rng;
-pub fn gen(_prop: &str, _rng: &mut Rng, _quick: bool, _st: &mut Stats) -> Option<Vec<String>> {
+use crate::spec;
+use crate::streams::*;
+use futures::executor::block_on;
+use pmtiles2::{Compression, PMTiles};
+use std::ops::Bound;
+use std::panic::{catch_unwind, AssertUnwindSafe};
+
+const FULL: Range = (Bound::Unbounded, Bound::Unbounded);
+
+pub fn build_state(mode: &str, ops: &str) -> Result<St, String> {
+    let mut st = fresh(mode == "async");
+    if ops == "-" {
+        return Ok(st);
+    }
+    let tmp = format!("{ops}");
+    // reuse the history runner's op semantics through a tiny interpreter
+    for o in tmp.split(';') {
+        let f: Vec<&str> = o.split(':').collect();
+        match f.as_slice() {
+            ["a", id, d] => {
+                let (id, d) = (unhex_u64(id), unhex_bytes(d));
+                let r = match &mut st {
+                    St::S(p) => p.add_tile(id, d),
+                    St::A(p) => p.add_tile(id, d),
+                };
+                r.map_err(|e| format!("add_tile: {e}"))?;
+            }
+            ["r", id] => match &mut st {
+                St::S(p) => p.remove_tile(unhex_u64(id)),
+                St::A(p) => p.remove_tile(unhex_u64(id)),
+            },
+            ["c", c] => match &mut st {
+                St::S(p) => p.internal_compression = parse_comp(c),
+                St::A(p) => p.internal_compression = parse_comp(c),
+            },
+            ["m", m] => {
+                let v: serde_json::Value = serde_json::from_slice(&unhex_bytes(m)).map_err(|e| e.to_string())?;
+                let serde_json::Value::Object(map) = v else { return Err("meta".into()) };
+                match &mut st {
+                    St::S(p) => p.meta_data = map,
+                    St::A(p) => p.meta_data = map,
+                }
+            }
+            ["h", tt, tc, minz, maxz, cz, f1, f2, f3, f4, f5, f6] => {
+                macro_rules! set {
+                    ($p:ident) => {{
+                        $p.tile_type = ttype_of_code(unhex_u64(tt));
+                        $p.tile_compression = comp_of_code(unhex_u64(tc));
+                        $p.min_zoom = unhex_u64(minz) as u8;
+                        $p.max_zoom = unhex_u64(maxz) as u8;
+                        $p.center_zoom = unhex_u64(cz) as u8;
+                        $p.min_longitude = parse_f64(f1);
+                        $p.min_latitude = parse_f64(f2);
+                        $p.max_longitude = parse_f64(f3);
+                        $p.max_latitude = parse_f64(f4);
+                        $p.center_longitude = parse_f64(f5);
+                        $p.center_latitude = parse_f64(f6);
+                    }};
+                }
+                match &mut st {
+                    St::S(p) => set!(p),
+                    St::A(p) => set!(p),
+                }
+            }
+            _ => return Err(format!("unsupported op {o}")),
+        }
+    }
+    Ok(st)
+}
+fn res<T>(r: std::thread::Result<std::io::Result<T>>, what: &str) -> Result<T, String> {
+    match r {
+        Err(_) => Err(format!("{what} panicked")),
+        Ok(Err(e)) => Err(format!("{what} failed: {e}")),
+        Ok(Ok(v)) => Ok(v),
+    }
+}
+pub fn write_plain(mode: &str, ops: &str) -> Result<Vec<u8>, String> {
+    let st = build_state(mode, ops)?;
+    let (r, core) = write_to(st, Core::new(Vec::new(), 0));
+    res(r, "to_writer")?;
+    Ok(core.data)
+}
+
+// ---------------------------------------------------------------------------------------------
+// C18
+// ---------------------------------------------------------------------------------------------
+fn chk_startpos(mode: &str, p: u64, pre: &[u8], ops: &str) -> Result<(), String> {
+    let reference = write_plain(mode, ops)?;
+    let st = build_state(mode, ops)?;
+    let (r, core) = write_to(st, Core::new(pre.to_vec(), p));
+    res(r, "to_writer at a non-zero position")?;
+    let img = core.data;
+    let keep = (p as usize).min(pre.len());
+    if img[..keep] != pre[..keep] {
+        return Err(format!("bytes before the starting position {p} were modified"));
+    }
+    if (p as usize) > pre.len() && img[pre.len()..p as usize].iter().any(|b| *b != 0) {
+        return Err("the gap before the starting position is not zero-filled".into());
+    }
+    let end = p as usize + reference.len();
+    if img.len() < end {
+        return Err(format!("stream has {} bytes, the archive written at {p} should reach {end}", img.len()));
+    }
+    if img[p as usize..end] != reference[..] {
+        let pos = img[p as usize..end].iter().zip(reference.iter()).position(|(a, b)| a != b).unwrap_or(0);
+        return Err(format!("the archive written at position {p} differs from the one written at 0 (first difference at archive offset {pos})"));
+    }
+    if img.len() > end && (pre.len() < img.len() || img[end..] != pre[end..]) {
+        return Err("bytes after the archive's end were modified".into());
+    }
+    if core.pos != end as u64 {
+        return Err(format!("stream left at position {} instead of the archive's end {end}", core.pos));
+    }
+    // reading the bytes from P on yields the archive
+    let v = spec::parse(&img[p as usize..], false).map_err(|e| format!("bytes from position {p} on are not a valid archive: {e}"))?;
+    let a = spec::parse(&reference, false).map_err(|e| format!("harness: {e}"))?;
+    if v.header != a.header || v.tile_entries != a.tile_entries {
+        return Err("archive read from position P differs from the reference".into());
+    }
+    for asy in [false, true] {
+        res(catch_unwind(AssertUnwindSafe(|| open(asy, img[p as usize..].to_vec(), FULL).map(|_| ()))), "opening the bytes from P on")?;
+    }
+    Ok(())
+}
+
+// ---------------------------------------------------------------------------------------------
+// C17
+// ---------------------------------------------------------------------------------------------
+fn chk_torn(mode: &str, ops: &str) -> Result<(), String> {
+    let st = build_state(mode, ops)?;
+    let mut core = Core::new(Vec::new(), 0);
+    core.keep_data = true;
+    let (r, core) = write_to(st, core);
+    res(r, "to_writer")?;
+    let full = core.data.clone();
+    // replay every prefix of the recorded write/seek operations
+    let mut img: Vec<u8> = Vec::new();
+    let mut wi = 0usize;
+    let events: Vec<&Ev> = core.log.iter().filter(|e| matches!(e, Ev::Write { .. } | Ev::Seek { .. })).collect();
+    let n = events.len();
+    let try_open = |img: &Vec<u8>, k: usize| -> Result<(), String> {
+        for asy in [false, true] {
+            let r = catch_unwind(AssertUnwindSafe(|| open(asy, img.clone(), FULL).map(|_| ())));
+            match r {
+                Err(_) => return Err(format!("opening the output torn after {k} of {n} operations panicked")),
+                Ok(Ok(())) => {
+                    if *img != full {
+                        return Err(format!("the output torn after {k} of {n} operations ({} of {} bytes) opens successfully", img.len(), full.len()));
+                    }
+                }
+                Ok(Err(_)) => {
+                    if *img == full {
+                        return Err("the complete output does not open".into());
+                    }
+                }
+            }
+            if k % 16 != 0 && k + 3 < n {
+                break; // the async reader is tried on a sample and near the end
+            }
+        }
+        Ok(())
+    };
+    try_open(&img, 0)?;
+    for (k, e) in events.iter().enumerate() {
+        if let Ev::Write { pos, len } = e {
+            let (p, l) = (*pos as usize, *len);
+            if img.len() < p + l {
+                img.resize(p + l, 0);
+            }
+            img[p..p + l].copy_from_slice(&core.wdata[wi]);
+            wi += 1;
+        }
+        // cheap pre-filter: without the magic nothing opens; still exercise the reader regularly
+        if img.len() >= 7 && &img[0..7] == b"PMTiles" || k % 8 == 0 || k + 4 >= n {
+            try_open(&img, k + 1)?;
+        }
+    }
+    if img != full {
+        return Err("harness: replay of the log does not reproduce the stream".into());
+    }
+    Ok(())
+}
+
+// ---------------------------------------------------------------------------------------------
+// C20
+// ---------------------------------------------------------------------------------------------
+fn within(ranges: &[(u64, u64)], allowed: &[(u64, u64)]) -> Option<(u64, u64)> {
+    // the allowed windows may touch each other: compare against their union
+    let mut al: Vec<(u64, u64)> = allowed.iter().copied().filter(|a| a.1 > a.0).collect();
+    al.sort_unstable();
+    let mut merged: Vec<(u64, u64)> = Vec::new();
+    for (a, b) in al {
+        if let Some(l) = merged.last_mut() {
+            if a <= l.1 {
+                l.1 = l.1.max(b);
+                continue;
+            }
+        }
+        merged.push((a, b));
+    }
+    let allowed = &merged[..];
+    'outer: for r in ranges {
+        for a in allowed {
+            if r.0 >= a.0 && r.1 <= a.1 {
+                continue 'outer;
+            }
+        }
+        return Some(*r);
+    }
     None
 }
-pub fn run_chk(_toks: &[&str]) -> Option<String> {
-    None
+fn chk_lazy(mode: &str, rg: Range, bytes: &[u8]) -> Result<(), String> {
+    let v = spec::parse(bytes, false).map_err(|e| format!("harness: archive invalid: {e}"))?;
+    let h = &v.header;
+    let mut allowed: Vec<(u64, u64)> = vec![(0, 127)];
+    if h.meta_len > 0 {
+        allowed.push((h.meta_off, h.meta_off + h.meta_len));
+    }
+    for (o, l) in &v.dir_windows {
+        allowed.push((*o, *o + *l));
+    }
+    let data = (h.data_off, h.data_off + h.data_len);
+    let all = spec::all_tiles(&v, 2_000_000)?;
+    let in_range: Vec<(u64, (u64, u32))> = all.iter().filter(|(id, _)| std::ops::RangeBounds::contains(&rg, *id)).map(|(a, b)| (*a, *b)).collect();
+    let step = (in_range.len() / 40).max(1);
+    if mode == "sync" {
+        let sh = Shared::new(Core::new(bytes.to_vec(), 0));
+        let mut pm = res(catch_unwind(AssertUnwindSafe(|| PMTiles::from_reader_partially(sh.clone(), rg))), "from_reader_partially")?;
+        let rr = read_ranges(&sh.0.borrow().log);
+        if let Some(bad) = within(&rr, &allowed) {
+            return Err(format!("opening read bytes [{}, {}) which lie in none of: header, metadata section, a directory it was told about", bad.0, bad.1));
+        }
+        if rr.iter().any(|r| r.0 < data.1 && data.0 < r.1 && data.1 > data.0) {
+            return Err("opening read bytes of the tile-data section".into());
+        }
+        for (id, ol) in in_range.iter().step_by(step) {
+            sh.0.borrow_mut().log.clear();
+            let got = res(catch_unwind(AssertUnwindSafe(|| pm.get_tile_by_id(*id))), "get_tile_by_id")?;
+            let want = (h.data_off + ol.0, h.data_off + ol.0 + u64::from(ol.1));
+            let rr = read_ranges(&sh.0.borrow().log);
+            if rr != vec![want] {
+                return Err(format!("lookup of tile {id} read {rr:?}, its byte range is [{}, {})", want.0, want.1));
+            }
+            if got.as_deref() != Some(spec::tile_bytes(bytes, h, *ol)?) {
+                return Err(format!("lookup of tile {id} returned other bytes"));
+            }
+        }
+        // an id that is not present reads nothing
+        sh.0.borrow_mut().log.clear();
+        let _ = pm.get_tile_by_id(u64::MAX - 3);
+        if !read_ranges(&sh.0.borrow().log).is_empty() {
+            return Err("lookup of an absent tile read from the stream".into());
+        }
+    } else {
+        let sh = AShared::new(Core::new(bytes.to_vec(), 0));
+        let mut pm = res(catch_unwind(AssertUnwindSafe(|| block_on(PMTiles::from_async_reader_partially(sh.clone(), rg)))), "from_async_reader_partially")?;
+        let rr = read_ranges(&sh.0.lock().unwrap().log);
+        if let Some(bad) = within(&rr, &allowed) {
+            return Err(format!("opening (async) read bytes [{}, {}) which lie in none of: header, metadata section, a directory it was told about", bad.0, bad.1));
+        }
+        if rr.iter().any(|r| r.0 < data.1 && data.0 < r.1 && data.1 > data.0) {
+            return Err("opening (async) read bytes of the tile-data section".into());
+        }
+        for (id, ol) in in_range.iter().step_by(step) {
+            sh.0.lock().unwrap().log.clear();
+            let got = res(catch_unwind(AssertUnwindSafe(|| block_on(pm.get_tile_by_id_async(*id)))), "get_tile_by_id_async")?;
+            let want = (h.data_off + ol.0, h.data_off + ol.0 + u64::from(ol.1));
+            let rr = read_ranges(&sh.0.lock().unwrap().log);
+            if rr != vec![want] {
+                return Err(format!("async lookup of tile {id} read {rr:?}, its byte range is [{}, {})", want.0, want.1));
+            }
+            if got.as_deref() != Some(spec::tile_bytes(bytes, h, *ol)?) {
+                return Err(format!("async lookup of tile {id} returned other bytes"));
+            }
+        }
+    }
+    Ok(())
 }
+
+include!("p_io2.rs");
